@@ -182,8 +182,11 @@ def fit_model_retry(kind):
     calls = {"n": 0}
     real_fit = QuantileRegressionSolver.fit
 
+    reqs = []
+
     def fit(self, *a, **k):
         calls["n"] += 1
+        reqs.append((a, dict(k)))
         if calls["n"] == 1:
             if kind == "SolverError":
                 raise cvxpy.error.SolverError("injected")
@@ -193,13 +196,27 @@ def fit_model_retry(kind):
     QuantileRegressionSolver.fit = fit
     out = {"exc": None, "n_calls": 0}
     try:
-        m = NonparametricElectionModel({})
+        # (a regularised model, weights that do not sum to 1 and differ by five orders of magnitude: the retry must be the
+        # SAME request -- matrix, response, weights, quantile, regularisation, intercept -- without weight normalisation)
+        m = NonparametricElectionModel({"lambda_": 0.5})
         rng = np.random.default_rng(0)
         X = pd.DataFrame({"intercept": np.ones(12), "f": rng.normal(size=12)})
         y = pd.Series(rng.normal(size=12))
-        w = pd.Series(rng.uniform(1, 3, size=12))
+        w = pd.Series(np.concatenate([rng.uniform(1, 3, size=10) * 1000.0, [0.01, 0.02]]))
         qr = QuantileRegressionSolver()
         m.fit_model(qr, X, y, 0.5, w, True)
+        out["retry_is_the_same_request"] = False
+        if len(reqs) == 2:
+            (a1, k1), (a2, k2) = reqs
+            same = len(a1) == len(a2) and all(np.array_equal(np.asarray(p_), np.asarray(q_)) for p_, q_ in zip(a1, a2))
+            for key in sorted(set(k1) | set(k2)):
+                if key == "normalize_weights":
+                    continue
+                if key not in k1 or key not in k2 or not np.array_equal(np.asarray(k1[key]), np.asarray(k2[key])):
+                    same = False
+                    out.setdefault("differs", []).append({"argument": key, "first": repr(k1.get(key))[:80], "retry": repr(k2.get(key))[:80]})
+            same = same and np.array_equal(np.asarray(a1[0]), X.values) and np.array_equal(np.asarray(k1.get("weights")), w.values) and float(k1.get("lambda_")) == 0.5 and k2.get("normalize_weights") is False
+            out["retry_is_the_same_request"] = bool(same)
         # the solver object the CALLER holds must be the one that ends up fitted (it is what predict() is called on)
         out["callers_solver_is_fitted"] = bool(len(np.asarray(qr.coefficients).ravel()) > 0)
         if out["callers_solver_is_fitted"]:
@@ -1011,6 +1028,11 @@ def uniform_swing_request_replay(lambda_=3.0):
     def frame(n, rep):
         last = rng.integers(500, 5000, n).astype(float)
         df = pd.DataFrame({"postal_code": "AA", "geographic_unit_fips": [f"{'r' if rep else 'n'}{i}" for i in range(n)], "reporting": int(rep), "unit_category": "expected"})
+        if rep:
+            # baselines five orders of magnitude apart (one-vote precincts next to a large county): the weights of the request
+            # are the baselines themselves, however small
+            last[-3:] = 1.0
+            last[10] = 450000.0
         df["last_election_results_turnout"] = last + 1
         df["results_turnout"] = np.round(last * (1 + rng.normal(0.05, 0.1, n))) if rep else np.round(last * 0.1)
         if rep:
@@ -1405,11 +1427,14 @@ def national_summary_weights_replay(correlated=False):
     B = 20
     m = BootstrapElectionModel({"features": ["baseline_normalized_margin"], "B": B, "agg_model_hard_threshold": True, "national_summary_correlation": correlated})
     rng = np.random.default_rng(0)
-    margins = {"a": -0.2, "b": 0.3, "c": 0.1, "d": 0.25, "e": -0.05, "f": 0.4}
-    weights = {"a": 55, "b": 10, "c": 29, "d": 3, "e": 16, "f": 4}
+    # (g: a contest without any predicted turnout -- get_aggregate_predictions reports its margin as exactly 0, and so is
+    # every bootstrap draw of it: it is NOT a contest with a positive margin)
+    margins = {"a": -0.2, "b": 0.3, "c": 0.1, "d": 0.25, "e": -0.05, "f": 0.4, "g": 0.0}
+    weights = {"a": 55, "b": 10, "c": 29, "d": 3, "e": 16, "f": 4, "g": 21}
     names = sorted(margins)
     m.aggregate_pred_margin = np.array([[margins[k]] for k in names])
     noise = rng.normal(0, 0.01, size=(len(names), B))
+    noise[names.index("g"), :] = 0.0
     m.divided_error_B_1 = noise
     m.divided_error_B_2 = noise * 0.5
     m.called_contests = np.full((len(names), 1), -1)
@@ -1418,10 +1443,10 @@ def national_summary_weights_replay(correlated=False):
     try:
         base = 7.5
         # insertion order different from the name order on purpose
-        r = m.get_national_summary_estimates({k: weights[k] for k in ("f", "a", "d", "b", "e", "c")}, base, 0.9)["margin"]
+        r = m.get_national_summary_estimates({k: weights[k] for k in ("f", "a", "g", "d", "b", "e", "c")}, base, 0.9)["margin"]
         want = base + sum(weights[k] for k in names if margins[k] > 0)
         out.update(pred=float(r[0]), lower=float(r[1]), upper=float(r[2]), want=float(want))
-        out["ok"] = bool(abs(r[0] - want) < 1e-9 and r[1] <= r[0] <= r[2])
+        out["ok"] = bool(abs(r[0] - want) < 1e-9 and r[1] <= r[0] <= r[2] and base <= r[1] and r[2] <= base + sum(weights.values()))
     except Exception as e:  # noqa
         out["exc"] = f"{type(e).__name__}: {e}"
         out["ok"] = False
@@ -2102,9 +2127,14 @@ def robust_correction_replay():
 
     out = {"exc": None, "problems": []}
     try:
-        for seed in range(6):
+        # (the last cases: the number of reporting units is the MINIMUM for the level -- floor(n * conf_frac) is 0, the training
+        # set is clamped to one row and the calibration set has n - 1 units, which is what the quantile level must use)
+        cases = [(seed, None, (0.7, 0.9)) for seed in range(6)] + [(10, 6, (0.7,)), (11, 4, (0.6,)), (12, 13, (0.85,)), (13, 7, (0.75,))]
+        for seed, n_fixed, alphas in cases:
             rng = np.random.default_rng(40 + seed)
             n_rep, n_non = int(rng.integers(45, 90)), 8
+            if n_fixed is not None:
+                n_rep = n_fixed
             def frame(n, rep):
                 last = np.exp(rng.normal(7, 1.2, n)).round() + 1
                 df = pd.DataFrame({"postal_code": "AA", "geographic_unit_fips": [f"{'r' if rep else 'n'}{i}" for i in range(n)], "reporting": int(rep), "unit_category": "expected", "last_election_results_turnout": last})
@@ -2113,7 +2143,7 @@ def robust_correction_replay():
                 return df
             rep, non = frame(n_rep, True), frame(n_non, False)
             for robust in (True, False):
-                for alpha in (0.7, 0.9):
+                for alpha in alphas:
                     m = NonparametricElectionModel({"robust": robust})
                     with warnings.catch_warnings():
                         warnings.simplefilter("ignore")
@@ -2575,5 +2605,32 @@ def bootstrap_unit_predictions_replay():
 
         out["exc"] = f"{type(e).__name__}: {e}"
         out["trace"] = traceback.format_exc()[-600:]
+        out["ok"] = False
+    return out
+
+
+def hash_seed_replay(scenarios=("bootstrap_districts", "bootstrap", "gaussian", "nonparametric")):
+    """REAL client, the requests of bounded/c12_runs.py, each in fresh interpreters with PYTHONHASHSEED = 1, 2, 3: the
+    returned tables (and the national summary) must be identical"""
+    import json
+    import subprocess
+
+    out = {"exc": None, "digests": {}, "differ": []}
+    try:
+        script = os.path.join(os.path.dirname(os.path.abspath(__file__)), "bounded", "c12_runs.py")
+        for sc in scenarios:
+            ds = []
+            for hs in ("1", "2", "3"):
+                env = dict(os.environ, PYTHONHASHSEED=hs)
+                env["PYTHONPATH"] = os.pathsep.join([p_ for p_ in [os.path.dirname(os.path.abspath(__file__)), env.get("PYTHONPATH", "")] if p_])
+                p = subprocess.run([sys.executable, script, "--child", sc, "--seed", "0"], capture_output=True, text=True, env=env)
+                line = [l_ for l_ in p.stdout.splitlines() if l_.startswith("{")]
+                ds.append(json.loads(line[-1])["digest"][:16] if line else "child-failed:" + p.stderr[-300:])
+            out["digests"][sc] = ds
+            if len(set(ds)) != 1 or ds[0].startswith("child-failed"):
+                out["differ"].append(sc)
+        out["ok"] = not out["differ"]
+    except Exception as e:  # noqa
+        out["exc"] = f"{type(e).__name__}: {e}"
         out["ok"] = False
     return out
